@@ -38,17 +38,17 @@ func rp(name, tests string, qs, qc, ts, tc int) phase {
 
 var checks = map[string]checkCfg{
 	"C01": {Level: "exploration", Technique: "rapid stateful histories vs byte-array model + backend compare",
-		Rule:        "cases are rapid-generated histories of CREATE/WRITE/READ/SETATTR(size)/GETATTR on <=3 files with adversarial offsets/counts under a cache and transfer-size configuration; non-trivial = a READ that was checked after >=2 mutations of its file of which at least one was an overlap, a hole or a shrink-then-extend; distinct = FNV-64 of the canonical case JSON, unioned over shards",
+		Rule:        "cases are rapid-generated histories of CREATE/WRITE/READ/SETATTR(size)/GETATTR on <=3 files with adversarial offsets/counts under a cache and transfer-size configuration; non-trivial = a READ that was checked after >=2 mutations of its file of which at least one was an overlap, a hole or a shrink-then-extend; distinct = FNV-64 of the canonical case JSON, unioned over shards; a quarter of the cases send every request through the server's real record-marking connection loop (one connection per client address, shared by all credentials) instead of a direct HandleCall",
 		Assumptions: baseAssumptions,
 		Phases:      []phase{rp("rapid", "^TestC01$", 10, 2500, 16, 12000)}},
 	"C03": {Level: "exploration", Technique: "bounded-exhaustive enumeration + rapid property vs pre/post backend snapshot",
-		Rule:        "phase enum enumerates every combination of existing object kind {none,file with data,empty dir,non-empty dir,symlink to file,dangling symlink} x createmode x all 64 sattr3 set-flag combinations x size {0,3,>len} x EXCLUSIVE verifier scenario {same,other,not exclusive} (with and without warm caches); phase rapid draws data contents, sizes, cache settings and preceding lookups; non-trivial = the name already exists and the object carries data or children; distinct = FNV-64 of the case JSON",
+		Rule:        "phase enum enumerates every combination of existing object kind {none,file with data,empty dir,non-empty dir,symlink to file,dangling symlink} x createmode x all 64 sattr3 set-flag combinations x size {0,3,>len} x EXCLUSIVE verifier scenario {same,other,not exclusive} (with and without warm caches); phase rapid draws data contents, sizes, cache settings and preceding lookups; non-trivial = the name already exists and the object carries data or children; distinct = FNV-64 of the case JSON; a quarter of the cases send every request through the server's real record-marking connection loop (one connection per client address, shared by all credentials) instead of a direct HandleCall",
 		Assumptions: baseAssumptions,
 		Phases: []phase{
 			{Name: "enum", Variant: "plain", Tests: "^TestC03$", QuickShards: 4, ThoroughShards: 8},
 			rp("rapid", "^TestC03Rapid$", 8, 3000, 16, 20000)}},
 	"C04": {Level: "exploration", Technique: "rapid histories; ghost attribute table + backend lstat comparison of every fattr3/wcc_attr sighting",
-		Rule:        "cases are rapid-generated histories (C02 namespace ops + WRITE/READ/ACCESS/SETATTR with arbitrary 32-bit mode words) over an empty or pre-seeded tree (dir, file, symlink, dangling symlink) under a drawn cache configuration; every attribute-carrying field of every reply is attributed to its object; non-trivial = some object was sighted through >=2 different procedures, or sighted after a successful SETATTR(mode) on a directory; distinct = FNV-64 of the case JSON",
+		Rule:        "cases are rapid-generated histories (C02 namespace ops + WRITE/READ/ACCESS/SETATTR with arbitrary 32-bit mode words) over an empty or pre-seeded tree (dir, file, symlink, dangling symlink) under a drawn cache configuration; every attribute-carrying field of every reply is attributed to its object; non-trivial = some object was sighted through >=2 different procedures, or sighted after a successful SETATTR(mode) on a directory; distinct = FNV-64 of the case JSON; a quarter of the cases send every request through the server's real record-marking connection loop (one connection per client address, shared by all credentials) instead of a direct HandleCall",
 		Assumptions: append([]string{"directory sizes are not compared (implementation-specific)", "namespace verdicts that differ from the tree model abandon the case here (they are C02's violations)"}, baseAssumptions...),
 		Phases:      []phase{rp("rapid", "^TestC04$", 10, 2500, 16, 10000)}},
 	"C05": {Level: "exploration", Technique: "rapid allocation histories vs path->handle liveness oracle (map level and protocol level)",
@@ -67,7 +67,7 @@ var checks = map[string]checkCfg{
 			rp("rapid", "^TestC07$", 8, 2500, 16, 15000),
 			{Name: "fuzz", Variant: "plain", ThoroughOnly: true, Fuzz: "^FuzzC07$", FuzzSeconds: 120, ThoroughShards: 1}}},
 	"C08": {Level: "exploration", Technique: "rapid histories of all procedures (well-formed/truncated/garbage) vs backend recorder + snapshot",
-		Rule:        "cases are rapid-generated histories of NFSv3 procedures 0..23 and MOUNT procedures with well-formed arguments on pre-seeded objects, arguments truncated at a 4-byte boundary or followed by random bytes, under four credentials, interleaved with read-only on/off switches through UpdatePolicyOptions and UpdateExportOptions; non-trivial = while read-only is in force a well-formed mutating procedure (SETATTR..COMMIT) was issued by an accepted credential; anti-vacuity label counts mutations that succeed while read-write; phase drain parks one mutating request (8 procedures, optionally timed out at the RPC level) inside the backend, switches the export to read-only and releases the request: no modifying backend call may start after the switch returned; distinct = FNV-64 of the case JSON",
+		Rule:        "cases are rapid-generated histories of NFSv3 procedures 0..23 and MOUNT procedures with well-formed arguments on pre-seeded objects, arguments truncated at a 4-byte boundary or followed by random bytes, under four credentials, interleaved with read-only on/off switches through UpdatePolicyOptions and UpdateExportOptions; non-trivial = while read-only is in force a well-formed mutating procedure (SETATTR..COMMIT) was issued by an accepted credential; anti-vacuity label counts mutations that succeed while read-write; phase drain parks one mutating request (8 procedures, optionally timed out at the RPC level) inside the backend, switches the export to read-only and releases the request: no modifying backend call may start after the switch returned; distinct = FNV-64 of the case JSON; a quarter of the cases send every request through the server's real record-marking connection loop (one connection per client address, shared by all credentials) instead of a direct HandleCall",
 		Assumptions: baseAssumptions,
 		Phases:      []phase{rp("rapid", "^TestC08$", 10, 2500, 16, 15000), rp("drain", "^TestC08Drain$", 4, 20, 8, 200)}},
 	"C09": {Level: "exploration", Technique: "rapid allow-lists/addresses; three-way differential against a bit-level membership oracle + request gate",
@@ -79,11 +79,11 @@ var checks = map[string]checkCfg{
 		Assumptions: append([]string{"machine names longer than 255 bytes are not generated (RFC 1831 bounds them, absnfs does not)", "for an unrecognised squash mode only uid/gid are judged (the statement does not define the auxiliary list)"}, baseAssumptions...),
 		Phases:      []phase{rp("rapid", "^TestC10$", 8, 6000, 16, 60000)}},
 	"C11": {Level: "exploration", Technique: "rapid credentials x squash x sattr3 uid/gid combinations vs backend Chown recorder and inode owner",
-		Rule:        "each case draws a squash mode, an AUTH_SYS (or AUTH_NONE) credential and 1-8 requests among SETATTR (on file, directory, symlink), CREATE, MKDIR, SYMLINK with every uid/gid set-flag combination and values {0, caller, 4242}; non-trivial = a non-root effective caller asked for foreign ids, or an object was created; distinct = FNV-64 of the case JSON",
+		Rule:        "each case draws a squash mode, an AUTH_SYS (or AUTH_NONE) credential and 1-8 requests among SETATTR (on file, directory, symlink), CREATE, MKDIR, SYMLINK with every uid/gid set-flag combination and values {0, caller, 4242}; non-trivial = a non-root effective caller asked for foreign ids, or an object was created; distinct = FNV-64 of the case JSON; half of the cases run over the real connection loop, with another user of the same client machine (uid 0, or uid 2000 when the caller is root) issuing a GETATTR on the same connection before requests",
 		Assumptions: baseAssumptions,
 		Phases:      []phase{rp("rapid", "^TestC11$", 8, 5000, 16, 20000)}},
 	"C12": {Level: "exploration", CanBeExhaustive: false, Technique: "exhaustive enumeration of the ACCESS decision space vs a decision table + rapid boundary cases",
-		Rule:        "phase enum enumerates every (mode, object type, caller relation in {owner, group, aux-group only, other, owner-and-group, root}, request mask 0..63, read-only off/on) point - quick: the 512 rwx modes (786432 points), thorough: all 4096 twelve-bit modes (6291456 points); each point is one ACCESS request after a root SETATTR installed mode and owner; phase rapid adds masks above 0x3F, arbitrary owners and auxiliary lists; every point is a distinct decision and counts as non-trivial; points are partitioned over shards by mode, so distinct counts add up",
+		Rule:        "phase enum enumerates every (mode, object type, caller relation in {owner, group, aux-group only, other, owner-and-group, root}, request mask 0..63, read-only off/on) point - quick: the 512 rwx modes (786432 points), thorough: all 4096 twelve-bit modes (6291456 points); each point is one ACCESS request after a root SETATTR installed mode and owner; phase rapid adds masks above 0x3F, arbitrary owners and auxiliary lists; every point is a distinct decision and counts as non-trivial; points are partitioned over shards by mode, so distinct counts add up; the rapid phase also draws the export's squash mode (none/root/all, mixed case) and judges the decision for the effective identity after squashing - there the object is made through the server by a second caller and judged against the owner the server reports - and a quarter of its cases run over the real connection loop",
 		Assumptions: append([]string{"absnfs stores only the 0777 bits in the backend, so setuid/setgid/sticky modes are sent but cannot influence the decision", "EXECUTE follows the x bit on files and directories (the statement restricts only LOOKUP and DELETE to directories)"}, baseAssumptions...),
 		Phases: []phase{
 			{Name: "enum", Variant: "plain", Tests: "^TestC12$", QuickShards: 8, ThoroughShards: 16},
@@ -100,7 +100,7 @@ var checks = map[string]checkCfg{
 		Phases: []phase{rp("rapid", "^TestC14$", 6, 1200, 16, 15000),
 			{Name: "concurrent-race", Variant: "race", Tests: "^TestC14Concurrent$", QuickShards: 3, QuickChecks: 60, ThoroughShards: 8, ThoroughChecks: 800}}},
 	"C15": {Level: "exploration", Technique: "rapid structured stream mutation + native fuzz against the record-marking connection loop; reply-stream invariant vs reference stream parser",
-		Rule:        "each case is a byte stream for one record-marking connection: 1-8 records, each a valid call of any program/procedure (or raw garbage) with 0-3 mutations (truncation, bit flip, a 4-byte word replaced by a hostile constant, appended bytes), an arbitrary fragmentation and framing games (missing last-fragment flag, lying fragment length, stray fragment headers); an enumeration phase substitutes every hostile constant for every argument word of every NFSv3 procedure x 6 handle/name variants, one substitution per call, 24 calls per stream; a reference parser decides which records a conformant server can decode; non-trivial = the stream holds >=1 decodable call and >=1 mutated/garbage record (every fuzz input counts); distinct = FNV-64 of the case JSON; thorough adds a native fuzz campaign seeded with valid calls and hostile constants",
+		Rule:        "each case is a byte stream for one record-marking connection: 1-8 records, each a valid call of any program/procedure (or raw garbage) with 0-3 mutations (truncation, bit flip, a 4-byte word replaced by a hostile constant, appended bytes), an arbitrary fragmentation and framing games (missing last-fragment flag, lying fragment length, stray fragment headers); an enumeration phase substitutes every hostile constant for every argument word of every NFSv3 procedure x 6 handle/name variants, one substitution per call, 24 calls per stream; a reference parser decides which records a conformant server can decode; non-trivial = the stream holds >=1 decodable call and >=1 mutated/garbage record (every fuzz input counts); distinct = FNV-64 of the case JSON; thorough adds a native fuzz campaign seeded with valid calls and hostile constants; a quarter of the streams meet a server with rate limiting on and a per-connection burst of 1-4 calls (a refusal is the one answer its call gets)",
 		Assumptions: append([]string{"a stream that simply ends inside a record does not oblige the server to close the connection before its read timeout; only complete undecodable records do", "allocation bound: 16 x bytes sent + records x (6 x 64 KiB + 64 KiB) + 8 MiB (TotalAlloc of the whole process)"}, baseAssumptions...),
 		Phases: []phase{rp("rapid", "^TestC15$", 8, 300, 16, 4000),
 			{Name: "enum", Variant: "plain", Tests: "^TestC15Enum$", QuickShards: 8, ThoroughShards: 8},
@@ -108,7 +108,7 @@ var checks = map[string]checkCfg{
 			{Name: "big", Variant: "plain", Tests: "^TestC15Big$", QuickShards: 4, QuickChecks: 3, ThoroughShards: 8, ThoroughChecks: 25, Background: true},
 			{Name: "fuzz", Variant: "plain", ThoroughOnly: true, Fuzz: "^FuzzC15$", FuzzSeconds: 240, ThoroughShards: 1}}},
 	"C16": {Level: "exploration", Technique: "rapid schedules with harness-owned gates inside the backend + policy-version invariants; same property under the race detector",
-		Rule:        "each case is a schedule of 3-14 steps over {start a request that parks on a backend gate (read or mutating), start UpdatePolicyOptions/UpdateExportOptions to the next stamped policy, prove the drain by probing until the first retry-later reply, open a gate, probe, fresh request judged under the policy in force, rate limiting switched on under an open connection}, optionally with a 40 ms request timeout so that parked requests time out; non-trivial = an update was started while >=1 request was parked in the backend, or rate limiting was enabled under an open connection; distinct = FNV-64 of the case JSON. Schedules are sampled, not enumerated; the Go scheduler's own choices are not controlled",
+		Rule:        "each case is a schedule of 3-14 steps over {start a request that parks on a backend gate (read or mutating), start UpdatePolicyOptions/UpdateExportOptions to the next stamped policy, prove the drain by probing until the first retry-later reply, open a gate, probe, fresh request judged under the policy in force, rate limiting switched on under an open connection}, optionally with a 40 ms request timeout so that parked requests time out; non-trivial = an update was started while >=1 request was parked in the backend, or rate limiting was enabled under an open connection; distinct = FNV-64 of the case JSON. Schedules are sampled, not enumerated; the Go scheduler's own choices are not controlled; in half of the cases the probes travel over an established record-marking connection (an unanswered probe is not a retry-later reply)",
 		Assumptions: append([]string{"timing guards (8-30 s) only ever yield an inconclusive part or a deadlock report after every gate was opened"}, baseAssumptions...),
 		Phases: []phase{rp("rapid", "^TestC16$", 6, 80, 16, 800),
 			{Name: "race", Variant: "race", Tests: "^TestC16$", QuickShards: 2, QuickChecks: 40, ThoroughShards: 8, ThoroughChecks: 300}}},
@@ -117,14 +117,14 @@ var checks = map[string]checkCfg{
 		Assumptions: append([]string{"real sockets on loopback; port 111 must be bindable for the StartWithPortmapper path"}, baseAssumptions...),
 		Phases:      []phase{{Name: "enum", Variant: "plain", Tests: "^TestC28$", QuickShards: 1, ThoroughShards: 1}}},
 	"C17": {Level: "exploration", Technique: "rapid client schedules against a real loopback server; counters, EOFs and goroutine stacks as oracle; also under the race detector",
-		Rule:        "each case draws MaxConnections 1-6, IdleTimeout 100-300 ms, the start path (Listen or Export) and 3-10 steps over {dial k connections concurrently and NULL each, NULL on all, close k, idle for 2 x IdleTimeout, Stop twice, AbsfsNFS.Close twice, Unexport twice}; non-trivial = more dials than MaxConnections, or Stop with open connections; distinct = FNV-64 of the case JSON. Timing assertions are one-sided (at least 2 s slack). Export cases may park a LOOKUP inside the backend and release it while the following Close/Unexport/Stop runs. Phase unreg: connections admitted through the server's admission path are each unregistered by 2-4 goroutines released from a barrier (handler, reaper and Stop ending one connection at once), 3-12 rounds per case",
+		Rule:        "each case draws MaxConnections 1-6, IdleTimeout 100-300 ms, the start path (Listen or Export) and 3-10 steps over {dial k connections concurrently and NULL each, NULL on all, close k, idle for 2 x IdleTimeout, Stop twice, AbsfsNFS.Close twice, Unexport twice}; non-trivial = more dials than MaxConnections, or Stop with open connections; distinct = FNV-64 of the case JSON. Timing assertions are one-sided (at least 2 s slack). Export cases may park a LOOKUP inside the backend and release it while the following Close/Unexport/Stop runs. Phase unreg: connections admitted through the server's admission path are each unregistered by 2-4 goroutines released from a barrier (handler, reaper and Stop ending one connection at once), 3-12 rounds per case; a third of the cases use a TLS listener and TLS clients",
 		Assumptions: append([]string{"real sockets on loopback and real time; a busy machine can only delay, never fail, an assertion"}, baseAssumptions...),
 		Phases: []phase{rp("rapid", "^TestC17$", 8, 12, 16, 120),
 			{Name: "race", Variant: "race", Tests: "^TestC17$", QuickShards: 2, QuickChecks: 8, ThoroughShards: 8, ThoroughChecks: 60},
 			{Name: "unreg", Variant: "plain", Tests: "^TestC17Unreg$", QuickShards: 6, QuickChecks: 300, ThoroughShards: 16, ThoroughChecks: 4000},
 			{Name: "stoprace", Variant: "plain", Tests: "^TestC17StopRace$", QuickShards: 4, QuickChecks: 12, ThoroughShards: 8, ThoroughChecks: 60}}},
 	"C18": {Level: "exploration", Technique: "rapid timing sequences on a virtual clock vs exact (big.Rat) ideal token buckets; cleanup differential; handler integration",
-		Rule:        "phase limiter: each case draws a RateLimiterConfig (rates/bursts in {0,1,2,5,1000}, mount per minute in {0,1,7,60}, CleanupInterval in {1 s, 60 s, 1 h}) and 5-80 events (advance the virtual clock by {0, 1 ns, 1 ms, 1/3 s, 1 s, 7 s, 90 s, 2 h}, then AllowRequest(ip, conn) or AllowOperation(ip, type)) over 4 IPs x 3 connections x 4 operation types; phase handlers drives real READ/WRITE > 64 KiB, READDIR(PLUS) and MNT requests through HandleCall under the same clock; non-trivial = the sequence contains a refusal and a later admission; distinct = FNV-64 of the case JSON",
+		Rule:        "phase limiter: each case draws a RateLimiterConfig (rates/bursts in {0,1,2,5,1000}, mount per minute in {0,1,7,60}, CleanupInterval in {1 s, 60 s, 1 h}) and 5-80 events (advance the virtual clock by {0, 1 ns, 1 ms, 1/3 s, 1 s, 7 s, 90 s, 2 h}, then AllowRequest(ip, conn) or AllowOperation(ip, type)) over 4 IPs x 3 connections x 4 operation types; phase handlers drives real READ/WRITE > 64 KiB, READDIR(PLUS) and MNT requests through HandleCall under the same clock; non-trivial = the sequence contains a refusal and a later admission; distinct = FNV-64 of the case JSON; one case in 40 (C19: one in 12) starts with a crowd of 300-4200 further client addresses sending one request each",
 		Assumptions: append([]string{"rate_limiter.go is compiled with time.Now/time.Since mechanically redirected to the harness clock (go/ast rewrite of the working-tree file at check time)", "decisions within 1e-6 tokens of the boundary are accepted either way (float64 implementation vs exact model)"}, baseAssumptions...),
 		Phases: []phase{{Name: "limiter", Variant: "clock", Tests: "^TestC18$", QuickShards: 8, QuickChecks: 3000, ThoroughShards: 16, ThoroughChecks: 50000, ReplayVariant: true},
 			{Name: "handlers", Variant: "clock", Tests: "^TestC18Handlers$", QuickShards: 2, QuickChecks: 600, ThoroughShards: 8, ThoroughChecks: 6000}}},
@@ -178,7 +178,7 @@ var checks = map[string]checkCfg{
 		Phases: []phase{{Name: "race", Variant: "race", Tests: "^TestC29$", QuickShards: 8, QuickChecks: 100, ThoroughShards: 16, ThoroughChecks: 1500, ReplayVariant: true},
 			{Name: "fill", Variant: "race", Tests: "^TestC29Fill$", QuickShards: 8, QuickChecks: 600, ThoroughShards: 16, ThoroughChecks: 4000, ReplayVariant: true}}},
 	"C02": {Level: "exploration", Technique: "rapid histories vs POSIX tree model + cached-vs-uncached differential",
-		Rule:        "cases are rapid-generated sequential histories of LOOKUP/CREATE/MKDIR/SYMLINK/REMOVE/RMDIR/RENAME/READDIR(PLUS)/GETATTR/READLINK over names {a,b,c} to depth 3, addressed through every handle ever issued (stale ones included); each history runs under the all-off baseline and k cached configurations (quick 3, thorough 6 of 15); non-trivial = a read-type request on a name or directory affected by an earlier successful mutation, executed under a configuration with at least one cache on; distinct = FNV-64 of the case JSON",
+		Rule:        "cases are rapid-generated sequential histories of LOOKUP/CREATE/MKDIR/SYMLINK/REMOVE/RMDIR/RENAME/READDIR(PLUS)/GETATTR/READLINK over names {a,b,c} to depth 3, addressed through every handle ever issued (stale ones included); each history runs under the all-off baseline and k cached configurations (quick 3, thorough 6 of 15); non-trivial = a read-type request on a name or directory affected by an earlier successful mutation, executed under a configuration with at least one cache on; distinct = FNV-64 of the case JSON; a quarter of the cases send every request through the server's real record-marking connection loop (one connection per client address, shared by all credentials) instead of a direct HandleCall",
 		Assumptions: append([]string{"documented latitude L1-L7 of DESIGN.md §5 C02 (REMOVE of empty dir, UNCHECKED/EXCLUSIVE on existing objects, error code identity not compared against the model, path-bound handles)"}, baseAssumptions...),
 		Phases:      []phase{rp("rapid", "^TestC02$", 10, 2000, 16, 10000)}},
 }
